@@ -947,6 +947,8 @@ class Checksums(productmd.common.MetadataBase):
             parser.set(self._section, path, "%s:%s" % (checksum_type, checksum))
 
     def deserialize(self, parser):
+        # the table describes the file being read, not whatever this object read before
+        self.checksums = {}
         if parser.has_section(self._section):
             for path, value in parser.items(self._section):
                 path = self._fix_path(path)
